@@ -3,6 +3,7 @@ package main
 import (
 	"fmt"
 	"go/constant"
+	"go/token"
 	"go/types"
 	"regexp"
 	"strings"
@@ -306,18 +307,35 @@ func ruleDBCodecColumn(c *Ctx, prefix, col string, w ssa.Value, wc string, targe
 	key := "column " + col
 	pos := c.P.Pos(loader.Pos())
 	// uses of the scanned variable in the loader
-	al, ok := target.(*ssa.Alloc)
-	if !ok {
-		c.R.unk(rule, key, pos, shortFn(loader), "scan target is not a local variable")
+	var loads []*ssa.UnOp
+	switch t := target.(type) {
+	case *ssa.Alloc:
+		for _, r := range *t.Referrers() {
+			if ld, ok := r.(*ssa.UnOp); ok {
+				loads = append(loads, ld)
+			}
+		}
+	case *ssa.FieldAddr:
+		// a field of a per-row struct: every load of that field in the loader and its helpers
+		f := fieldOf(t.X.Type(), t.Field)
+		if f == nil || rootAlloc(t.X) == nil {
+			c.R.unk(rule, key, pos, shortFn(loader), "scan target is not a local variable or a field of one")
+			return
+		}
+		eachInstr(loader, func(in ssa.Instruction) {
+			if ld, ok := in.(*ssa.UnOp); ok && ld.Op == token.MUL {
+				if fa, ok := ld.X.(*ssa.FieldAddr); ok && fieldOf(fa.X.Type(), fa.Field) == f {
+					loads = append(loads, ld)
+				}
+			}
+		})
+	default:
+		c.R.unk(rule, key, pos, shortFn(loader), "scan target is not a local variable or a field of one")
 		return
 	}
 	var parsers []string
 	var direct []string
-	for _, r := range *al.Referrers() {
-		ld, ok := r.(*ssa.UnOp)
-		if !ok {
-			continue
-		}
+	for _, ld := range loads {
 		for _, u := range *ld.Referrers() {
 			switch x := u.(type) {
 			case *ssa.Call:
